@@ -1124,9 +1124,14 @@ where
             Some(b'u') => {
                 if self.read.remain() < 6 {
                     return perr!(self, EofWhileParsing);
-                } else {
-                    self.read.eat(5);
                 }
+                // `\uXXXX` must be followed by exactly four hex digits
+                let hex = &self.read.peek_n(5).unwrap()[1..];
+                if !hex.iter().all(u8::is_ascii_hexdigit) {
+                    self.read.eat(1);
+                    return perr!(self, InvalidEscape);
+                }
+                self.read.eat(5);
             }
             Some(c) => {
                 if self.read.next().is_none() {
